@@ -60,7 +60,10 @@ def components(version, strict=True):
     matches = versions_pattern.match(version)
     if matches:
         if matches.start(4) > 0:
-            return int(matches.group(1)), int(matches.group(2)), int(matches.group(3)), matches.group(4)
+            # with the optional pattern a suffix may follow a version without minor or patch (e.g. "7.17-fix")
+            minor = int(matches.group(2)) if matches.group(2) is not None else None
+            patch = int(matches.group(3)) if matches.group(3) is not None else None
+            return int(matches.group(1)), minor, patch, matches.group(4)
         elif matches.start(3) > 0:
             return int(matches.group(1)), int(matches.group(2)), int(matches.group(3)), None
         elif matches.start(2) > 0:
